@@ -19,7 +19,7 @@ import (
 // HistRecipe builds a block from a histogram shape and an arrangement.
 type HistRecipe struct {
 	Alpha   int    `json:"alpha"` // alphabet size 1..256
-	Shape   int    `json:"shape"` // 0 flat, 1 geometric, 2 rare+dominant, 3 single, 4 two symbols, 5 zipf
+	Shape   int    `json:"shape"` // 0 flat, 1 geometric, 2 rare+dominant, 3 single, 4 two symbols, 5 zipf, 6 exact geometric counts (ratio from K), 7 Fibonacci counts
 	K       int    `json:"k"`     // rare symbols (shape 2)
 	M       int    `json:"m"`     // dominant symbols (shape 2)
 	Len     int    `json:"len"`
@@ -27,7 +27,9 @@ type HistRecipe struct {
 	Seed    uint64 `json:"seed"`
 }
 
-var shapeNames = []string{"flat", "geometric", "rare+dominant", "single", "two", "zipf"}
+var shapeNames = []string{"flat", "geometric", "rare+dominant", "single", "two", "zipf", "exact-geometric", "fibonacci"}
+
+const nShapes = 8
 
 type sm64 struct{ s uint64 }
 
@@ -46,8 +48,11 @@ func (h HistRecipe) Expand() []byte {
 	}
 	rg := &sm64{s: h.Seed*2654435761 + 12345}
 	a := max(1, min(256, h.Alpha))
+	if sh := h.Shape % nShapes; sh == 6 || sh == 7 {
+		return h.expandExact(rg, a, n)
+	}
 	w := make([]float64, a)
-	switch h.Shape % 6 {
+	switch h.Shape % nShapes {
 	case 0:
 		for i := range w {
 			w[i] = 1
@@ -112,7 +117,7 @@ func (h HistRecipe) Expand() []byte {
 		b[i] = perm[j]
 	}
 	// rare symbols must really occur (shape 2): plant each once
-	if h.Shape%6 == 2 {
+	if h.Shape%nShapes == 2 {
 		k := max(0, min(a-1, h.K))
 		m := max(1, min(a-k, max(1, h.M)))
 		for i := 0; i < k && i < n; i++ {
@@ -130,6 +135,98 @@ func (h HistRecipe) Expand() []byte {
 			s := b[off:e]
 			if (off/seg)%2 == 0 {
 				sort.Slice(s, func(i, j int) bool { return s[i] < s[j] })
+			}
+		}
+	}
+	return b
+}
+
+// expandExact builds a block whose histogram has EXACT counts (no sampling): a geometric sequence with ratio
+// 0.40..0.89 (shape 6; a ratio near 0.6 with a tail of symbols occurring once makes optimal prefix codes
+// longer than any length limit) or the Fibonacci numbers (shape 7, the worst case for code depth), scaled so
+// that the counts sum to the requested length. The bytes are then arranged like the sampled shapes.
+func (h HistRecipe) expandExact(rg *sm64, a, n int) []byte {
+	w := make([]float64, 0, a)
+	if h.Shape%nShapes == 6 {
+		ratio := 0.40 + float64(h.K%50)/100
+		v := 1.0
+		for i := 0; i < a; i++ {
+			w = append(w, v)
+			v *= ratio
+		}
+	} else {
+		f1, f2 := 1.0, 1.0
+		for i := 0; i < a && i < 60; i++ {
+			w = append(w, f1)
+			f1, f2 = f2, f1+f2
+		}
+		// largest first
+		for i, j := 0, len(w)-1; i < j; i, j = i+1, j-1 {
+			w[i], w[j] = w[j], w[i]
+		}
+	}
+	tot := 0.0
+	for _, v := range w {
+		tot += v
+	}
+	counts := make([]int, len(w))
+	used := 0
+	for i, v := range w {
+		c := int(v / tot * float64(n))
+		if c < 1 {
+			c = 1
+		}
+		counts[i] = c
+		used += c
+	}
+	// fit the sum to n: trim the tail of ones, then adjust the largest count
+	for used > n && len(counts) > 1 {
+		used -= counts[len(counts)-1]
+		counts = counts[:len(counts)-1]
+	}
+	if len(counts) == 1 {
+		counts[0] = n
+	} else {
+		counts[0] += n - used
+	}
+	perm := make([]byte, 256)
+	for i := range perm {
+		perm[i] = byte(i)
+	}
+	if h.M%2 == 0 {
+		for i := 255; i > 0; i-- {
+			j := int(rg.next() % uint64(i+1))
+			perm[i], perm[j] = perm[j], perm[i]
+		}
+	} else {
+		// every other byte value, in order (contiguous alphabets hide rank/value mix-ups)
+		for i := range perm {
+			perm[i] = byte(2 * i)
+		}
+	}
+	b := make([]byte, 0, n)
+	for i, c := range counts {
+		for j := 0; j < c && len(b) < n; j++ {
+			b = append(b, perm[i])
+		}
+	}
+	for len(b) < n {
+		b = append(b, perm[0])
+	}
+	switch h.Arrange % 3 {
+	case 0:
+		for i := len(b) - 1; i > 0; i-- {
+			j := int(rg.next() % uint64(i+1))
+			b[i], b[j] = b[j], b[i]
+		}
+	case 2:
+		// shuffled inside segments
+		seg := max(64, n/7)
+		for off := 0; off+seg <= n; off += 2 * seg {
+			s := b[off : off+seg]
+			for i := len(s) - 1; i > 0; i-- {
+				j := int(rg.next() % uint64(i+1))
+				s[i], s[j] = s[j], s[i]
 			}
 		}
 	}
@@ -298,7 +395,7 @@ func c12Eval(r *vrt.Run, c C12Case) c12Out {
 	shape := "datakind"
 	if c.Hist != nil {
 		n = c.Hist.Len
-		shape = "shape:" + shapeNames[c.Hist.Shape%6]
+		shape = "shape:" + shapeNames[c.Hist.Shape%nShapes]
 	} else if c.Data != nil {
 		n = c.Data.Len
 		shape = "kind:" + gen.KindNames[c.Data.Kind%gen.NKinds]
@@ -336,14 +433,15 @@ func drawC12(t *rapid.T, maxLen int, heavy bool) C12Case {
 	case 1, 2:
 		n = rapid.IntRange(0, 70).Draw(t, "len")
 	case 3:
-		n = 4096 + rapid.IntRange(-3, 3).Draw(t, "len")
+		// 4096: RANGE lowers its log range below; 2048 = Huffman's renormalisation scale (chunk size / 8)
+		n = rapid.SampledFrom([]int{4096, 4096, 2048, 1024, 512, 256}).Draw(t, "lenbase") + rapid.IntRange(-3, 3).Draw(t, "len")
 	case 4, 5:
 		ch := c12Chunk[c.Codec]
 		if ch == 0 || ch > ml {
 			ch = 16384
 		}
 		q := rapid.IntRange(1, max(1, min(3, ml/ch))).Draw(t, "q")
-		n = q*ch + rapid.SampledFrom([]int{-1, 0, 1, 2, 31, 32, 33, 255, 256, 300, 4095, 4096}).Draw(t, "r")
+		n = q*ch + rapid.SampledFrom([]int{-1, 0, 1, 2, 3, 31, 32, 33, 255, 256, 300, 2047, 2048, 2049, 4095, 4096}).Draw(t, "r")
 	default:
 		n = rapid.IntRange(0, ml).Draw(t, "len")
 	}
@@ -353,7 +451,7 @@ func drawC12(t *rapid.T, maxLen int, heavy bool) C12Case {
 		d.Len = n
 		c.Data = &d
 	} else {
-		h := HistRecipe{Alpha: rapid.IntRange(1, 256).Draw(t, "alpha"), Shape: rapid.IntRange(0, 5).Draw(t, "shape"),
+		h := HistRecipe{Alpha: rapid.IntRange(1, 256).Draw(t, "alpha"), Shape: rapid.IntRange(0, nShapes-1).Draw(t, "shape"),
 			K: rapid.IntRange(0, 255).Draw(t, "k"), M: rapid.IntRange(1, 4).Draw(t, "m"), Len: n,
 			Arrange: rapid.IntRange(0, 2).Draw(t, "arrange"), Seed: rapid.Uint64Range(0, 1<<32).Draw(t, "seed")}
 		c.Hist = &h
@@ -413,6 +511,41 @@ func TestC12(t *testing.T) {
 	}
 	r.Rapid(t, "small", 24000, 800000, prop(100000, false))
 	r.Rapid(t, "heavy-codecs", 300, 12000, prop(20000, true))
+	// Directed family: exact geometric / Fibonacci histograms (the shapes that push optimal prefix codes beyond the
+	// length limit and stress the frequency tables) at the block lengths where a chunk's total equals a scale used
+	// by the coders (2048 = Huffman renormalisation, 4096 = ANS/RANGE log range 12, 256/512 = small-chunk log ranges),
+	// alone and as the last chunk behind a full 16 KiB chunk.
+	{
+		didx := 0
+		for _, codec := range []string{"HUFFMAN", "ANS0", "RANGE", "ANS1"} {
+			for _, ln := range []int{2048, 4096, 16384 + 2048, 512, 256, 2047, 4097} {
+				for _, alpha := range []int{12, 20, 30, 48, 256} {
+					for k := 0; k < 50; k++ {
+						didx++
+						if !r.Mine(didx) || r.Failed() {
+							continue
+						}
+						shape := 6
+						if k >= 46 {
+							shape = 7 // Fibonacci counts for the last few
+						}
+						c := C12Case{Codec: codec, Hist: &HistRecipe{Alpha: alpha, Shape: shape, K: k, M: didx % 2, Len: ln, Arrange: didx % 3, Seed: uint64(didx)},
+							Prefix: didx % 8, PadBits: didx % 7, BufSize: 16384}
+						r.Label("directed:exact-histograms")
+						if o := c12Eval(r, c); o.msg != "" {
+							if r.Survey() {
+								r.Violation(t, "entropy", c, "%s", o.msg)
+								continue
+							}
+							r.RecordFailure("entropy", c, "", o.msg)
+							t.Fatalf("exact-histogram family: %s on %s", o.msg, jsonOf(c))
+						}
+					}
+				}
+			}
+		}
+		r.SetExhaustive("exact geometric/Fibonacci histograms x scale-sized blocks x {HUFFMAN, ANS0, RANGE, ANS1}", true)
+	}
 	// fixed cases across the 4 MiB internal chunk boundary of ANS1 and FPAQ (cheap enough for every run)
 	idx := 0
 	for _, codec := range []string{"FPAQ", "ANS1"} {
